@@ -35,6 +35,8 @@ def family(tier):
         fam.append(dict(variant=variant, vec_enabled=True, grp_enabled=True, depth=1, ndev=2, ngroups=2, write_veto=True))
     for variant in ("number-sexa3", "number-sexa5", "number-sexa8", "number-sexa9", "number-g"):
         fam.append(dict(variant=variant, vec_enabled=True, grp_enabled=True, depth=1, ndev=1, ngroups=2))
+    for variant in ("text", "number-printf", "switch-OneOfMany"):
+        fam.append(dict(variant=variant, vec_enabled=True, grp_enabled=True, depth=1, ndev=1, ngroups=2, dead_peer=True))
     # the client's two connections are established with latency, in either order
     for order in (("ctl", "blob"), ("blob", "ctl")):
         for variant in ("blob", "text"):
@@ -43,7 +45,7 @@ def family(tier):
 
 
 def deployment_of(p):
-    return DP.deployment(**{k: v for k, v in p.items() if k not in ("write_veto", "connect")})
+    return DP.deployment(**{k: v for k, v in p.items() if k not in ("write_veto", "connect", "dead_peer")})
 
 
 def shards(tier, seed):
@@ -104,6 +106,16 @@ class Run:
                 self.handshaken = {"DEV0"}
             else:
                 self.observer = None
+                self.link_offset = 0
+                self.dead_link = None
+                if p.get("dead_peer"):
+                    # another peer connected BEFORE our client and is on its way out during the last operation: its
+                    # transport is closing, the server has not noticed yet.  Our client must not feel it.
+                    self.dead_link = self.w.new_link("dead")
+                    self.w.settle()
+                    self.dead_link.server_ep.feed(b'<getProperties version="1.7"/>')
+                    self.w.settle()
+                    self.link_offset = 1
                 if len(self.specs) >= 2 and self.kind != "blob":
                     self.observer = self.w.devices[1].snoop_device("DEV0")
                     self.w.settle()
@@ -321,7 +333,7 @@ def wire_mirror_check(run):
     d0 = "variant=%s" % p["variant"]
     if run.snoop:
         return fails
-    ctl = run.w.links[0]
+    ctl = run.w.links[getattr(run, 'link_offset', 0)]
     text = ctl.server_ep.written().decode("latin1")
     els, rest = X.split_elements(text)
     if rest.strip():
@@ -389,6 +401,8 @@ def run_history(p, path, snoop, delivery="whole", cuts=None, chooser=None, judge
         paused_eps = []
         for k, op in enumerate(path):
             last = k == len(path) - 1
+            if last and getattr(run, "dead_link", None) is not None:
+                run.dead_link.server_ep.transport.closing = True
             if delivery == "backpressure" and not paused_eps and k >= len(path) - 2:
                 # the clients read slowly: from here on the server's writes wait in drain() (flow control paused) while
                 # the last two operations publish; afterwards the clients catch up and must converge all the same
@@ -401,7 +415,7 @@ def run_history(p, path, snoop, delivery="whole", cuts=None, chooser=None, judge
                 run.w.delivery = delivery
                 run.w.chooser = chooser
                 if cuts is not None:
-                    s2c = run.w.links[0].s2c if run.w.links else None
+                    s2c = run.w.links[getattr(run, 'link_offset', 0)].s2c if run.w.links else None
                     if s2c is not None:
                         base = s2c.delivered + len(s2c.pending)
                         run.w.cuts = {s2c.name: [base + c for c in cuts]}
@@ -420,7 +434,7 @@ def run_history(p, path, snoop, delivery="whole", cuts=None, chooser=None, judge
         if paused_eps:
             run.w.settle()
         if run.w.links:
-            s2c = run.w.links[0].s2c
+            s2c = run.w.links[getattr(run, 'link_offset', 0)].s2c
             info["s2c_total"] = s2c.delivered
         fails = judge(run)
         if getattr(run, "observer", None) is not None:
